@@ -111,7 +111,7 @@ fn permutations(n: usize, limit: usize) -> Vec<Vec<usize>> {
 
 pub fn run(ctx: &Ctx, rep: &mut Report) {
     let thorough = ctx.tier.is_thorough();
-    rep.rule = "terminal state = (seed item, variant of requesting the same impls: other entry point | a split of the trait list into consecutive derive_ex attributes (graph of split operations explored breadth-first with a seen-set) | a sub-list containing one trait whose helper attributes all affect it | a permutation of the list); oracle = token equality of each trait's generated impls with the merged attribute-macro baseline; non-trivial = the variant differs textually from the baseline and at least one impl was compared".into();
+    rep.rule = "terminal state = (seed item, variant of requesting the same impls: other entry point | a split of the trait list into consecutive derive_ex attributes (graph of split operations explored breadth-first with a seen-set; two-way splits also with foreign attributes between the lists) | a sub-list containing one trait whose helper attributes all affect it | a permutation of the list); oracle = token equality of each trait's generated impls with the merged attribute-macro baseline; non-trivial = the variant differs textually from the baseline and at least one impl was compared".into();
     rep.assumptions = vec!["token comparison ignores spacing; sub-list comparison is restricted to items whose helper attributes all affect the retained trait (documented attribute/trait table, I1)".into()];
     let mut seeds: Vec<Seed> = all_seeds(thorough).into_iter().filter(|s| !s.is_impl && s.entry == Entry::Attr && !s.traits.is_empty()).collect();
     let mut jobs: Vec<Job> = Vec::new();
@@ -151,6 +151,12 @@ pub fn run(ctx: &Ctx, rep: &mut Report) {
                     jobs.push(Job { seed: si, kind: "split", entry: Entry::Attr, attr: text(&groups[0]), item: format!("{rest}{}", s.item), traits: s.traits.clone(), map: id.clone() });
                     if thorough || cuts.len() == 1 {
                         jobs.push(Job { seed: si, kind: "split", entry: Entry::Derive, attr: String::new(), item: format!("#[derive_ex({})] {rest}{}", text(&groups[0]), s.item), traits: s.traits.clone(), map: id.clone() });
+                    }
+                    if cuts.len() == 1 {
+                        // the lists need not be adjacent: foreign attributes in between
+                        let far: String = groups[1..].iter().map(|g| format!("#[doc = \" d\"] #[derive_ex({})] #[allow(dead_code)] ", text(g))).collect();
+                        jobs.push(Job { seed: si, kind: "split-nonadjacent", entry: Entry::Attr, attr: text(&groups[0]), item: format!("{far}{}", s.item), traits: s.traits.clone(), map: id.clone() });
+                        jobs.push(Job { seed: si, kind: "split-nonadjacent", entry: Entry::Derive, attr: String::new(), item: format!("#[derive_ex({})] {far}{}", text(&groups[0]), s.item), traits: s.traits.clone(), map: id.clone() });
                     }
                 }
                 for c in 1..n {
